@@ -74,6 +74,10 @@ func runSnapSteps(t *Trace, r *Rng, tier string) {
 		if h%2 == 1 {
 			kv["unsafe_batch"] = true
 			kv["scorchPersisterOptions"] = map[string]interface{}{"NumPersisterWorkers": 3, "MaxSizeInMemoryMergePerWorker": 1 << 20}
+			if h%4 == 1 { // several flush groups per persister round
+				kv["scorchPersisterOptions"] = map[string]interface{}{"NumPersisterWorkers": 2, "MaxSizeInMemoryMergePerWorker": 1,
+					"PersisterNapTimeMSec": 40, "PersisterNapUnderNumFiles": 1000}
+			}
 		}
 		path := dir
 		if h%4 == 3 {
